@@ -453,13 +453,14 @@ func (s *sim) probe(r *route, sh Shape) error {
 		s.c.Probe("non_canonical_spelling")
 	}
 
-	mux301 := redirected && resp.Code == http.StatusMovedPermanently && strings.HasPrefix(resp.Location, eff)
+	// net/http answers 301 up to go1.25 and 307 from go1.26 on.
+	mux301 := redirected && (resp.Code == http.StatusMovedPermanently || resp.Code == http.StatusTemporaryRedirect || resp.Code == http.StatusPermanentRedirect) && strings.HasPrefix(resp.Location, eff)
 	switch {
 	case redirected && (mux301 || resp.Code == http.StatusForbidden):
 		// The mux's own redirect to the canonical path (no handler involved).
 		s.c.Probe("mux_redirect_to_canonical_path")
 	case redirected:
-		return kernel.Violationf("non-canonical-path-served", "%s: the path is not canonical, expected the mux's 301 to %q (or 403), got %d location=%q", desc, eff, resp.Code, resp.Location)
+		return kernel.Violationf("non-canonical-path-served", "%s: the path is not canonical, expected the mux's redirect to %q (or 403), got %d location=%q", desc, eff, resp.Code, resp.Location)
 	case !canonical && (authn != "no" || public):
 		// CONNECT with a non-canonical path: the mux matches the raw path,
 		// which only the static catch-all takes.
@@ -674,7 +675,7 @@ func Gen(t *rapid.T, tier string) any {
 	if rapid.IntRange(0, 5).Draw(t, "single_route") == 0 {
 		sc.Route = rapid.IntRange(0, 199).Draw(t, "route")
 	}
-	sc.DigestEvery = rapid.SampledFrom([]int{1, 16, 256}).Draw(t, "digest_every")
+	sc.DigestEvery = rapid.SampledFrom([]int{16, 256, 1}).Draw(t, "digest_every")
 	n := rapid.IntRange(1, 24).Draw(t, "n_shapes")
 	for i := 0; i < n; i++ {
 		sc.Shapes = append(sc.Shapes, Shape{
